@@ -310,6 +310,9 @@ theorem apply_roles {s s' : St} {o : Op} (h : Roles s) (e : apply s o = .ok s') 
   | transferOwner sg ra' no =>
     obtain ⟨r, hg, _, _, _, rfl⟩ := transferOwner_ok e
     exact h.frame (Frame.of_setRa (r0 := r) h.core.uniq hg (by rfl) (by rfl) (by rfl))
+  | setSeqParams au sp =>
+    obtain ⟨_, hnp, _, rfl⟩ := setSeqParams_ok e
+    exact ⟨h.core.of_sub' rfl rfl (fun _ he => he) rfl hnp, h.sp.of_ras rfl⟩
   | begin_ dt => simp only [apply] at e; injection e with e; subst e; exact beginBlock_roles h
   | end_ f => simp only [apply] at e; injection e with e; subst e; exact h.frame (endBlock_frame h.core.uniq)
 
